@@ -16599,6 +16599,10 @@ impl<SP: SignerProvider> Writeable for FundedChannel<SP> {
 					3u8.write(writer)?;
 					#[cfg(test)]
 					inbound_committed_update_adds.push(_update_add);
+					#[cfg(all(not(test), feature = "_verif_hooks"))]
+					if crate::ln::channelmanager::verif_hooks_reload::write_committed_update_adds() {
+						inbound_committed_update_adds.push(_update_add);
+					}
 				},
 				&InboundHTLCState::LocalRemoved(ref removal_reason) => {
 					4u8.write(writer)?;
